@@ -127,11 +127,28 @@ func (w *Workspace) RunFastDir(dir string, imp gotypes.Importer) (res *Result) {
 		res.OK = res.V.OK
 		res.Stage = res.V.Stage
 	}()
-	res.Diag = diag.String()
+	res.Diag = normDiag(diag.String(), dir)
 	res.Base = readIf(filepath.Join(dir, "base.gen.go"))
 	res.Lexer = readIf(filepath.Join(dir, "lexer.gen.go"))
 	res.Parser = readIf(filepath.Join(dir, "parser.gen.go"))
 	return res
+}
+
+// normDiag makes diagnostics independent of the scratch directory's name.
+func normDiag(d, dir string) string {
+	d = strings.ReplaceAll(d, dir+"/", "")
+	if rel, err := filepath.Rel(mustGetwd(), dir); err == nil {
+		d = strings.ReplaceAll(d, rel+"/", "")
+	}
+	return d
+}
+
+func mustGetwd() string {
+	wd, err := os.Getwd()
+	if err != nil {
+		return "/"
+	}
+	return wd
 }
 
 // RunLexer runs the pipeline up to EmitLexer (no Go analysis).
@@ -152,7 +169,7 @@ func (w *Workspace) RunLexer(s *Spec) (res *Result) {
 		res.OK = res.V.OK
 		res.Stage = res.V.Stage
 	}()
-	res.Diag = diag.String()
+	res.Diag = normDiag(diag.String(), dir)
 	res.Base = readIf(filepath.Join(dir, "base.gen.go"))
 	res.Lexer = readIf(filepath.Join(dir, "lexer.gen.go"))
 	return res
@@ -180,7 +197,7 @@ func (w *Workspace) RunFront(s *Spec, report bool) (res *Result, reportText stri
 		res.OK = res.V.OK
 		res.Stage = res.V.Stage
 	}()
-	res.Diag = diag.String()
+	res.Diag = normDiag(diag.String(), dir)
 	return res, rep.String()
 }
 
